@@ -187,8 +187,32 @@ def monitor_run(rig, res, obs, verdicts, cert_ok, cut_frames=()):
     return fails
 
 
-def responses_of(obs):
-    return [(o["frame"], None if o["raw"] is None else mask_ts(o["raw"])) for o in obs if o["k"] == "handled"]
+def mask_fresh_material(raw):
+    """blank the value of every Key Material byte string (tag 420043, type Byte String) of a response"""
+    out, i = bytearray(raw), 0
+    while True:
+        i = raw.find(b"\x42\x00\x43\x08", i)
+        if i < 0 or i + 8 > len(raw):
+            break
+        n = int.from_bytes(raw[i + 4:i + 8], "big")
+        out[i + 8:i + 8 + n] = b"\0" * max(0, min(n, len(raw) - i - 8))
+        i += 8
+    return bytes(out)
+
+
+def responses_of(obs, generates=None):
+    """what a connection was answered, for comparison between two runs of the same stream: time stamps blanked; when the
+    stream itself asks the server to GENERATE key material (Create / Create Key Pair - op codes 1, 2 - in any frame) and
+    a response carries Key Material, those bytes are blanked too: they are fresh randomness of each run, whatever the
+    chunking (a thorough-tier false alarm of round 10: [Create; Get by placeholder] in one batch)"""
+    hs = [o for o in obs if o["k"] == "handled"]
+    if generates is None:
+      generates = any(o["frame"] is not None and (b"\x42\x00\x5c\x05\x00\x00\x00\x04\x00\x00\x00\x01" in o["frame"] or
+                                                b"\x42\x00\x5c\x05\x00\x00\x00\x04\x00\x00\x00\x02" in o["frame"]) for o in hs)
+    def norm(raw):
+        raw = mask_ts(raw)
+        return mask_fresh_material(raw) if generates else raw
+    return [(o["frame"], None if o["raw"] is None else norm(o["raw"])) for o in hs]
 
 
 def model_line(rig, events, case, res, obs, verdicts):
@@ -294,8 +318,9 @@ def run_case(rig, snap, case, rnd, st=None, lines=None):
                 fails.append(("c12:framing-differs-from-length-fields",
                               "session framed %d requests, the length fields delimit %d" % (len(seen), len(spec))))
         base = responses_of(runs[0][2])
+        gen = base != responses_of(runs[0][2], generates=False)      # (decided once per case, on the whole stream)
         for evs, res, obs in runs[1:]:
-            if responses_of(obs) != base:
+            if responses_of(obs, generates=gen) != base:
                 fails.append(("c12:responses-depend-on-chunking", "same stream, different chunking, different answers"))
         # the undecodable frames are no-ops of the conversation: without them the others are answered the same
         good = [f for f in spec if verdicts[f] is not None]
@@ -307,7 +332,7 @@ def run_case(rig, snap, case, rnd, st=None, lines=None):
                 return fails
             obs2 = observe(rig, res2)
             a = [x for x in base if verdicts[x[0]] is not None]
-            if a != responses_of(obs2):
+            if a != responses_of(obs2, generates=gen):
                 fails.append(("c12:good-request-answered-differently-after-bad",
                               "a valid request is answered differently when undecodable frames precede it"))
     if st is not None:
